@@ -18,7 +18,10 @@ func init() { simrt.WaitQuiescent = synctest.Wait }
 func Run(t *testing.T, cfg simrt.Config, S *simrt.Choices, mainFn func(t *simrt.Task)) (res *simrt.Result) {
 	var s *simrt.Sim
 	var rootPanic interface{}
-	func() {
+	// A sub-test per run: in a -race binary the testing package fails the
+	// (sub-)test on any report and synctest.Test then calls FailNow, which must
+	// not take the worker loop down with it.
+	t.Run("sim", func(st *testing.T) {
 		defer func() {
 			if r := recover(); r != nil {
 				msg := fmt.Sprint(r)
@@ -29,10 +32,10 @@ func Run(t *testing.T, cfg simrt.Config, S *simrt.Choices, mainFn func(t *simrt.
 					}
 					return
 				}
-				panic(r)
+				rootPanic = r
 			}
 		}()
-		synctest.Test(t, func(t *testing.T) {
+		synctest.Test(st, func(t *testing.T) {
 			defer func() {
 				if r := recover(); r != nil {
 					rootPanic = r
@@ -41,7 +44,7 @@ func Run(t *testing.T, cfg simrt.Config, S *simrt.Choices, mainFn func(t *simrt.
 			s = simrt.New(cfg, S)
 			res = s.Run(mainFn)
 		})
-	}()
+	})
 	if rootPanic != nil {
 		panic(fmt.Sprintf("simulator root panic: %v", rootPanic))
 	}
